@@ -47,6 +47,17 @@ def exhaustive(tier):
             v = vals if t["t"] == "list" else dict(zip("abcde", vals))
             yield {"spec": t, "value": v, "full": None, "kind": "equal-valued-twins", "rng": [0.5, 0.0], "share": False,
                    "probes": [v, list(reversed(vals)) if t["t"] == "list" else dict(zip("abcde", reversed(vals)))]}
+    # keys that look like paths (a dotted key is a key, not a path into the value)
+    dotted = [{"t": "dict"}, {"t": "dict", "entries": [], "relaxed": True}, {"t": "any"},
+              {"t": "dict", "entries": [{"key": "a.b", "opt": False, "spec": {"t": "int"}},
+                                        {"key": "a", "opt": True, "spec": {"t": "dict", "entries": [{"key": "b", "opt": False, "spec": {"t": "int"}}], "relaxed": False}}],
+               "relaxed": False},
+              {"t": "dict", "entries": [{"key": "user.name", "opt": False, "spec": {"t": "str"}}], "relaxed": True}]
+    for t in dotted:
+        for v in ({"user.name": "bob"}, {"a.b": 1}, {"a.b": 1, "a": {"b": 2}}, {"x.y.z": None, "x": 1}, {"user.name": "bob", "user": {"name": "al"}}):
+            yield {"spec": t, "value": v, "full": None, "kind": "dotted-keys", "rng": [0.5], "share": False, "probes": [v]}
+            yield {"spec": {"t": "list", "form": "typed", "elem": t}, "value": [v], "full": None, "kind": "dotted-keys", "rng": [0.5], "share": False,
+                   "probes": [[v]]}
     fl = [{"t": "float"}, {"t": "float", "min": 0.0, "order": ["min"]}, {"t": "any", "alts": [{"t": "float"}, {"t": "none"}]}]
     for f in fl:
         for n in (0, 10, -3, 2 ** 53 + 1, 10 ** 22 + 1, -(2 ** 53) - 1, 2 ** 64 + 1, 10 ** 400):
